@@ -103,23 +103,26 @@ theorem foldl_write_mem (s : State α) (W : List Entry) (acc : Dict α) (x : Str
 /-- the archive layer accepts a dictionary without `None` -/
 theorem npzLoad_ok (f : Dict α) (h : ∀ x ∈ f, x.2.isNone = false) : npzLoad f = .ok f := by
   unfold npzLoad
-  have : f.all (fun e => match Dict.get? f e.1 with | some v => !v.isNone | none => true) = true := by
+  have : f.all (fun e => liveOK f e.1) = true := by
     rw [List.all_eq_true]
     intro e _
+    unfold liveOK
     cases hg : Dict.get? f e.1 with
     | none => rfl
     | some v => simpa using h _ (get?_mem f e.1 v hg)
-  simp [this]
+  rw [if_pos this]
 
 /-- … and refuses one that holds a `None` (the `np.load` error "Object arrays cannot be loaded") -/
 theorem npzLoad_none (f : Dict α) (k : String) (hk : Dict.get? f k = some Val.none) :
     npzLoad f = .error .objectArray := by
   unfold npzLoad
   have hm := get?_mem f k _ hk
-  have : f.all (fun e => match Dict.get? f e.1 with | some v => !v.isNone | none => true) = false := by
-    rw [List.all_eq_false]
-    exact ⟨(k, Val.none), hm, by simp [hk, Val.isNone]⟩
-  simp [this]
+  have : ¬ (f.all (fun e => liveOK f e.1) = true) := by
+    rw [List.all_eq_true]
+    intro hall
+    have := hall (k, Val.none) hm
+    simp [liveOK, hk, Val.isNone] at this
+  rw [if_neg this]
 
 /-! ### fromDict -/
 
@@ -132,9 +135,8 @@ theorem fromDict_ok (R : List Entry) (d : Dict α) (s0 : State α)
   | cons e R ih =>
     simp only [List.foldlM_cons, List.foldl_cons]
     have he := h e (by simp)
-    have hstep : readStep d s0 e
-        = .ok (s0.set e.slot (match Dict.get? d e.key with | some v => v | none => .none)) := by
-      unfold readStep
+    have hstep : readStep d s0 e = .ok (s0.set e.slot (lookupOrNone d e.key)) := by
+      unfold readStep lookupOrNone
       cases hg : Dict.get? d e.key with
       | some v => rfl
       | none =>
@@ -153,40 +155,36 @@ theorem fromDict_keyError (e : Entry) (R : List Entry) (d : Dict α) (s0 : State
   have : readStep d s0 e = .error (.keyError e.key) := by unfold readStep; simp [hm, ho]
   rw [this]; rfl
 
+theorem applyReads_cons (e : Entry) (R : List Entry) (d : Dict α) (s0 : State α) :
+    applyReads (e :: R) d s0 = applyReads R d (s0.set e.slot (lookupOrNone d e.key)) := rfl
+
 theorem applyReads_untouched (R : List Entry) (d : Dict α) (s0 : State α) (x : String)
     (h : ∀ e ∈ R, e.slot ≠ x) : applyReads R d s0 x = s0 x := by
-  unfold applyReads
   induction R generalizing s0 with
   | nil => rfl
   | cons e R ih =>
-    simp only [List.foldl_cons]
-    rw [ih _ (fun e' he' => h e' (List.mem_cons_of_mem _ he'))]
+    rw [applyReads_cons, ih _ (fun e' he' => h e' (List.mem_cons_of_mem _ he'))]
     have : x ≠ e.slot := fun hx => h e (by simp) hx.symm
     simp [State.set, this]
 
 theorem applyReads_value (R : List Entry) (d : Dict α) (s0 : State α) (x : String) (v : Val α)
     (hex : ∃ e ∈ R, e.slot = x)
-    (hall : ∀ e ∈ R, e.slot = x → (match Dict.get? d e.key with | some v => v | none => Val.none) = v) :
+    (hall : ∀ e ∈ R, e.slot = x → lookupOrNone d e.key = v) :
     applyReads R d s0 x = v := by
   induction R generalizing s0 with
   | nil => obtain ⟨e, he, _⟩ := hex; simp at he
   | cons e R ih =>
+    rw [applyReads_cons]
     by_cases hlater : ∃ e' ∈ R, e'.slot = x
-    · have := ih (s0.set e.slot (match Dict.get? d e.key with | some v => v | none => .none)) hlater
-        (fun e' he' => hall e' (List.mem_cons_of_mem _ he'))
-      simpa [applyReads] using this
+    · exact ih _ hlater (fun e' he' => hall e' (List.mem_cons_of_mem _ he'))
     · have hno : ∀ e' ∈ R, e'.slot ≠ x := fun e' he' hx => hlater ⟨e', he', hx⟩
       have hhere : e.slot = x := by
         obtain ⟨e', he', hx⟩ := hex
         rcases List.mem_cons.mp he' with rfl | he''
         · exact hx
         · exact absurd hx (hno e' he'')
-      have h1 := applyReads_untouched R d
-        (s0.set e.slot (match Dict.get? d e.key with | some v => v | none => .none)) x hno
-      have h2 := hall e (by simp) hhere
-      simp only [applyReads, List.foldl_cons] at h1 ⊢
-      rw [h1]
-      simp [State.set, hhere, h2]
+      rw [applyReads_untouched R d _ x hno]
+      simp [State.set, hhere, hall e (by simp) hhere]
 
 /-! ### the round trip, for any pair of tables -/
 
@@ -240,12 +238,13 @@ theorem roundtrip (sp : Spec) (hnd : (sp.writes.map Entry.key).Nodup)
   -- 2. what each read line finds
   have hfind : ∀ e ∈ sp.reads,
       ((Dict.get? (toDict sp.writes s) e.key).isSome = true ∨ e.opt = true) ∧
-      (match Dict.get? (toDict sp.writes s) e.key with | some v => v | none => Val.none) = s e.slot := by
+      lookupOrNone (toDict sp.writes s) e.key = s e.slot := by
     intro e he
     obtain ⟨w, hw, hk, hsl, hopt⟩ := (covers_iff _ _).mp (hcov e he)
     have hg := foldl_write_get s sp.writes hnd [] w hw
     rw [hk] at hg
     change Dict.get? (toDict sp.writes s) e.key = _ at hg
+    unfold lookupOrNone
     rw [hg]
     cases hsk : skipped s w with
     | false => simp [hsl]
@@ -408,7 +407,8 @@ theorem precip_phase_observables_saved :
 
 /-- all lines are mandatory and every line lands in a known slot -/
 theorem precip_lines_known :
-    (∀ e ∈ precipGlobalW ++ precipPhaseW ++ precipGlobalR ++ precipPhaseR, e.opt = false ∧ e.slot ≠ "?") := by
+    (∀ e ∈ precipGlobalW ++ precipPhaseW ++ precipGlobalR ++ precipPhaseR,
+      Entry.opt e = false ∧ Entry.slot e ≠ "?") := by
   decide
 
 /-- the per-phase templates are what was recorded on the two-phase model -/
@@ -474,10 +474,10 @@ theorem psd_recording_lost (ph : String) (s s0 : State α)
   rcases (mem_expand _ _ _ _).mp he with h | ⟨ph', hph', p, hp', rfl⟩
   · -- a global slot never carries a phase suffix: all of them are in the generated list, decide
     have hmem : e.slot ∈ precipGlobalR.map Entry.slot := List.mem_map_of_mem h
-    have hall : ∀ g ∈ precipGlobalR.map Entry.slot, ¬ "@".toList <:+: g.toList := by decide
+    have hall : ∀ g ∈ precipGlobalR.map Entry.slot, '@' ∉ g.toList := by decide
     apply hall _ hmem
     rw [hs]
-    exact ⟨o.toList, ph.toList, by simp [String.toList_append]⟩
+    simp [String.toList_append]
   · simp only [List.mem_singleton] at hph'
     subst hph'
     have : p.slot = o := at_injective _ _ _ hs
